@@ -57,7 +57,15 @@ impl ExtendedPublicKey {
     }
 
     pub fn from_string_impl(xpub_string: &str) -> Result<Self, BSVErrors> {
-        let mut cursor = Cursor::new(bs58::decode(xpub_string).into_vec()?);
+        let decoded = bs58::decode(xpub_string).into_vec()?;
+        // 78 bytes of payload followed by the first 4 bytes of its double SHA256
+        if decoded.len() != 82 {
+            return Err(BSVErrors::DerivationError(format!("Extended key payload must be 82 bytes long, got {}", decoded.len())));
+        }
+        if Hash::sha_256d(&decoded[..78]).to_bytes()[..4] != decoded[78..] {
+            return Err(BSVErrors::DerivationError("Extended key checksum does not match".into()));
+        }
+        let mut cursor = Cursor::new(decoded);
 
         // Skip the first 4 bytes "xprv"
         cursor.set_position(4);
